@@ -9,6 +9,7 @@
 from __future__ import annotations
 
 import linecache
+import os
 import sys
 import traceback
 import types
@@ -145,7 +146,29 @@ def validate(pkg) -> str | None:
     """Real hugr-core validator on the serialised package.  None = valid."""
     import hugr.cli
     try:
-        hugr.cli.validate(pkg.to_bytes())
+        data = pkg.to_bytes()
+    except Exception as e:  # noqa: BLE001
+        return f"serialisation failed: {type(e).__name__}: {e}"
+    return validate_bytes(data)
+
+
+_DEVNULL = None
+
+
+def validate_bytes(data: bytes) -> str | None:
+    """The validator chats 'HUGR valid!' on fd 2; silence it for the duration of the call."""
+    import hugr.cli
+    global _DEVNULL
+    if _DEVNULL is None:
+        _DEVNULL = os.open(os.devnull, os.O_WRONLY)
+    sys.stderr.flush()
+    saved = os.dup(2)
+    os.dup2(_DEVNULL, 2)
+    try:
+        hugr.cli.validate(data)
         return None
     except Exception as e:  # noqa: BLE001
         return f"{type(e).__name__}: {e}"
+    finally:
+        os.dup2(saved, 2)
+        os.close(saved)
